@@ -243,6 +243,14 @@ fn enable_service_file(output_path: &Path, service: &SystemdUnitFile) {
         .lookup_all_strv(INSTALL_SECTION, "Alias")
         .iter()
         .map(|s| PathBuf::from(s).cleaned())
+        .filter(|p| {
+            // only relative paths that stay inside the output directory
+            let inside = !p.as_os_str().is_empty() && p.is_relative() && !p.starts_with("..");
+            if !inside {
+                warn!("Ignoring Alias {p:?}: not a relative path inside the output directory");
+            }
+            inside
+        })
         .collect();
     symlinks.append(&mut alias);
 
